@@ -125,3 +125,96 @@ pub fn run_case(c: &Case) -> Outcome {
 pub fn strategy() -> BoxedStrategy<Case> {
     (any::<u16>(), any::<u16>(), proptest::collection::vec(0u8..4, 0..3), 0u8..8).prop_map(|(backlog, close_at, sub_caps, warmup)| Case { backlog, close_at, sub_caps, warmup }).boxed()
 }
+
+
+// ------------------------------------------------------------------ request/reply flavour
+use selium_server::topic::reqrep;
+
+struct ClosingReqStream {
+    inner: MockStream,
+    close_at: usize,
+    tx: Arc<Mutex<Option<Sender<reqrep::Socket<String>>>>>,
+    pulled_at_close: Arc<Mutex<Option<usize>>>,
+}
+impl Stream for ClosingReqStream {
+    type Item = Result<Frame, SeliumError>;
+    fn poll_next(mut self: Pin<&mut Self>, cx: &mut Context<'_>) -> Poll<Option<Self::Item>> {
+        let n = self.inner.n_yielded();
+        if n == self.close_at {
+            if let Some(mut tx) = self.tx.lock().unwrap().take() {
+                tx.close_channel();
+                *self.pulled_at_close.lock().unwrap() = Some(n);
+            }
+        }
+        Pin::new(&mut self.inner).poll_next(cx)
+    }
+}
+
+/// A requestor has a long backlog of requests ready, the replier accepts everything; the
+/// channel is closed inside the poll that forwards them. "Finishes in bounded time from
+/// mid-delivery": the router must notice within NOTICE_BOUND further requests and finish.
+pub fn run_case_rr(c: &Case) -> Outcome {
+    crate::core::watchdog::tick();
+    let (topic, mut tx) = reqrep::Topic::<String>::pair();
+    let mut ex = Exec::new(topic);
+    let backlog = 300 + (c.backlog as usize % 2700);
+    let warmup = (c.warmup % 8) as usize;
+    let close_at = warmup + (c.close_at as usize % (backlog / 2));
+    ex.inner_limit = 64 * (backlog as u64 + 100);
+    let rep_si = MockSink::new(1000);
+    let rep_st = MockStream::default();
+    let with_replier = c.sub_caps.first().map_or(true, |c| c % 4 != 3);
+    if with_replier && tx.try_send(reqrep::Socket::Server((Box::pin(rep_si.clone()), Box::pin(rep_st.clone())))).is_err() {
+        return Outcome::Inconclusive("registration refused".into());
+    }
+    let req_si = MockSink::new(1000);
+    let inner = MockStream::default();
+    let holder = Arc::new(Mutex::new(None));
+    let pulled_at_close = Arc::new(Mutex::new(None));
+    let st = ClosingReqStream { inner: inner.clone(), close_at, tx: holder.clone(), pulled_at_close: pulled_at_close.clone() };
+    if tx.try_send(reqrep::Socket::Client((Box::pin(req_si.clone()), Box::pin(st)))).is_err() {
+        return Outcome::Inconclusive("registration refused".into());
+    }
+    macro_rules! step {
+        ($e:expr) => {
+            if let Err(e) = $e {
+                return match e {
+                    ExecErr::Panic { msg, spin: true } => Outcome::fail("spin", msg),
+                    ExecErr::Panic { msg, .. } => Outcome::fail(format!("panic:{msg}"), "router panicked"),
+                    ExecErr::Livelock => Outcome::fail("livelock", "router kept waking itself"),
+                };
+            }
+        };
+    }
+    let mk = |n: usize| {
+        let mut h = std::collections::HashMap::new();
+        h.insert("req_id".to_string(), n.to_string());
+        Frame::Message(selium_protocol::MessagePayload { headers: Some(h), message: format!("q0:{n}:").into_bytes().into() })
+    };
+    for _ in 0..4 {
+        step!(ex.poll_once());
+    }
+    for n in 0..warmup {
+        inner.push(mk(n));
+    }
+    step!(ex.run());
+    for n in warmup..warmup + backlog {
+        inner.push(mk(n));
+    }
+    *holder.lock().unwrap() = Some(tx);
+    step!(ex.run());
+    let Some(at) = *pulled_at_close.lock().unwrap() else {
+        return Outcome::Inconclusive("the close point was never reached".into());
+    };
+    if !ex.done {
+        return Outcome::fail("no-finish-after-close", format!("the channel was closed during a poll (after {at} requests); every sink accepts data and no wake-up is pending, yet the request/reply router has not finished"));
+    }
+    let pulled = inner.n_yielded();
+    if pulled > at + NOTICE_BOUND {
+        return Outcome::fail(
+            "close-not-noticed-mid-delivery",
+            format!("the channel was closed when {at} requests had been taken; the request/reply router went on to take {} more (bound {NOTICE_BOUND}) before it noticed", pulled - at),
+        );
+    }
+    Outcome::pass(vec![if with_replier { "rr-closed-during-poll-with-backlog" } else { "rr-closed-during-poll-no-replier" }], true)
+}
